@@ -82,8 +82,8 @@ def run_decoders(res, lean, r, thorough):
         buf = ino_encode(recs)
         out = list(Inotify._parse_event_buffer(buf))
         lines.append("inodec " + (buf.hex() or "-"))
-        impl.append(" ".join(f"{wd % 2**32}:{mask}:{ck}:{name.hex() or '-'}" for wd, mask, ck, name in out) or "EMPTY")
-        exp.append(" ".join(f"{wd % 2**32}:{mask}:{ck}:{name.hex() or '-'}" for wd, mask, ck, name, _p in recs) or "EMPTY")
+        impl.append(" ".join(f"{wd}:{mask}:{ck}:{name.hex() or '-'}" for wd, mask, ck, name in out) or "EMPTY")
+        exp.append(" ".join(f"{wd}:{mask}:{ck}:{name.hex() or '-'}" for wd, mask, ck, name, _p in recs) or "EMPTY")
     # truncated / malformed stream: the decoder must stop at an incomplete header like the model does
     for _ in range(300 if thorough else 60):
         buf = bytes(r.getrandbits(8) for _ in range(r.randint(0, 15))) if r.random() < 0.3 else \
@@ -93,9 +93,22 @@ def run_decoders(res, lean, r, thorough):
             pass
         out = list(Inotify._parse_event_buffer(buf))
         lines.append("inodec " + (buf.hex() or "-"))
-        impl.append(" ".join(f"{wd % 2**32}:{mask}:{ck}:{name.hex() or '-'}" for wd, mask, ck, name in out) or "EMPTY")
+        impl.append(" ".join(f"{wd}:{mask}:{ck}:{name.hex() or '-'}" for wd, mask, ck, name in out) or "EMPTY")
         exp.append(None)
-    outs = lean.run(lines)
+
+    def signed_wd(o):
+        # the model keeps `wd` as the unsigned 32-bit value of the field; the C struct's `int wd` is its two's-complement
+        # reading (the queue-overflow record has wd = -1, which `read_events` tests for)
+        if o in ("EMPTY", "bad-op"):
+            return o
+        toks = []
+        for tok in o.split(" "):
+            f = tok.split(":")
+            u = int(f[0])
+            toks.append(":".join([str(u - 2 ** 32 if u >= 2 ** 31 else u)] + f[1:]))
+        return " ".join(toks)
+
+    outs = [signed_wd(o) for o in lean.run(lines)]
     for line, o, i, e in zip(lines, outs, impl, exp):
         res.count()
         res.bump("inotify_buffers")
